@@ -13,6 +13,11 @@ import (
 	"time"
 
 	"github.com/chrislusf/seaweedfs/weed/pb/filer_pb"
+	"github.com/chrislusf/seaweedfs/weed/sequence"
+	"github.com/chrislusf/seaweedfs/weed/storage"
+	"github.com/chrislusf/seaweedfs/weed/storage/needle"
+	"github.com/chrislusf/seaweedfs/weed/storage/super_block"
+	"github.com/chrislusf/seaweedfs/weed/storage/types"
 	"github.com/chrislusf/seaweedfs/weed/util/log_buffer"
 	"github.com/chrislusf/seaweedfs/weed/wdclient"
 )
@@ -31,6 +36,14 @@ func main() {
 	case "vidmap":
 		for i := 0; i < rounds; i++ {
 			vidMap()
+		}
+	case "volume":
+		for i := 0; i < rounds; i++ {
+			volume(i%2 == 1)
+		}
+	case "sequencer":
+		for i := 0; i < rounds; i++ {
+			sequencer()
 		}
 	default:
 		os.Exit(2)
@@ -93,6 +106,61 @@ func logBuffer() {
 	close(stop)
 	wg.Wait()
 	lb.Shutdown()
+}
+
+// writers, deleters and readers on two keys of one real Volume (immediate or batched write path)
+func volume(batched bool) {
+	dir, err := os.MkdirTemp("/dev/shm", "verif-race-vol-")
+	if err != nil {
+		panic(err)
+	}
+	defer os.RemoveAll(dir)
+	v, err := storage.NewVolume(dir, dir, "", 1, storage.NeedleMapInMemory, &super_block.ReplicaPlacement{}, needle.EMPTY_TTL, 0, 0)
+	if err != nil {
+		panic(err)
+	}
+	var wg sync.WaitGroup
+	for g := 0; g < 4; g++ {
+		wg.Add(1)
+		go func(g int) {
+			defer wg.Done()
+			for i := 0; i < 60; i++ {
+				key := types.NeedleId(1 + (g+i)%2)
+				switch (g + i) % 3 {
+				case 0:
+					n := &needle.Needle{Id: key, Cookie: 7, Data: []byte(fmt.Sprintf("d%d-%d", g, i))}
+					n.Checksum = needle.NewCRC(n.Data)
+					v.SchedWriteV(n, batched)
+				case 1:
+					v.SchedDeleteV(&needle.Needle{Id: key, Cookie: 7})
+				default:
+					v.SchedReadV(&needle.Needle{Id: key, Cookie: 7}, nil)
+				}
+			}
+		}(g)
+	}
+	wg.Wait()
+	v.Destroy()
+}
+
+// concurrent NextFileId / SetMax on the memory sequencer
+func sequencer() {
+	s := sequence.NewMemorySequencer()
+	var wg sync.WaitGroup
+	for g := 0; g < 4; g++ {
+		wg.Add(1)
+		go func(g int) {
+			defer wg.Done()
+			for i := 0; i < 500; i++ {
+				if (g+i)%5 == 0 {
+					s.SetMax(uint64(i))
+				} else {
+					s.NextFileId(uint64(1 + i%3))
+				}
+			}
+		}(g)
+	}
+	wg.Wait()
 }
 
 // one writer adding/deleting locations against readers looking them up
